@@ -112,8 +112,20 @@ def rule_wakeups(ctx):
         T = ctx.T(g)
         fq = [c["bb"] for c in T.calls() if c["q"].startswith(MAP) and c["q"].rsplit("::", 1)[1] in FIRST_Q[:5]]
         if kind == "insert":
-            W = Walker(ctx, g, [first_opt, first_cmp_atom()])
-            tr = ret_truths(ctx, W, g, {"first": "Some", "first_vs_n": "="})
+            # the map may or may not have been empty before the insertion: a lower number can be requested while higher
+            # ones are pending (retries, out-of-order fetchers), so "was empty" is not a substitute for "is now the lowest"
+            def a_empty(t):
+                return t[0] == "call" and t[1].startswith(MAP) and t[1].rsplit("::", 1)[1] in ("is_empty",)
+            W = Walker(ctx, g, [first_opt, first_cmp_atom(), Atom("empty", "bool", a_empty, [True, False])])
+            tr = set()
+            worst = None
+            for emp in (True, False):
+                t1 = ret_truths(ctx, W, g, {"first": "Some", "first_vs_n": "=", "empty": emp})
+                if t1 == {False}:
+                    worst = t1
+                tr |= t1
+            if worst is not None:
+                tr = worst
             verdict(ctx, R, "request: new lowest request wakes acceptors", tr,
                     "the closure returns true when the inserted number is the first key",
                     "the closure inserting a request returns false even when the inserted number became the lowest pending key: waiting acceptors never see it and the request is never handed to a peer", g.loc())
